@@ -357,7 +357,7 @@ fn le_sx(e: &LE) -> String {
 }
 /// what the generator believes a name holds (only used to bias towards well-typed programs)
 #[derive(Clone, PartialEq)]
-enum LK { Num, Bool, Str, ArrNum, ArrStr, Mat, EnumNum, EnumStr, EnumRows, Other }
+enum LK { Num, Bool, Str, ArrNum, ArrStr, Mat, EnumNum, EnumStr, EnumRows, ZipNS, Other }
 
 fn gen_lit(r: &mut Rng, k: &LK) -> LV {
     match k {
@@ -368,7 +368,7 @@ fn gen_lit(r: &mut Rng, k: &LK) -> LV {
         // now and then rows of different element kinds, the well-typed row first (`Any[]`: every numeric use must be rejected)
         LK::Mat => if r.chance(1, 9) { LV::Arr(vec![LV::Arr(vec![LV::I(r.range(0, 6)), LV::I(r.range(0, 6))]), if r.chance(1, 2) { LV::Arr(vec![LV::S("a".into()), LV::S("b".into())]) } else { LV::Arr(vec![LV::Arr(vec![LV::I(3)]), LV::Arr(vec![LV::I(4)])]) }]) }
             else { LV::Arr((0..1 + r.below(3)).map(|_| LV::Arr((0..1 + r.below(3)).map(|_| LV::I(r.range(0, 6))).collect())).collect()) },
-        LK::EnumNum | LK::EnumStr | LK::EnumRows => LV::Arr(vec![]),
+        LK::EnumNum | LK::EnumStr | LK::EnumRows | LK::ZipNS => LV::Arr(vec![]),
         LK::Other => match r.below(3) { 0 => LV::Arr(vec![LV::I(1), LV::S("a".into())]), 1 => LV::Arr(vec![]), _ => LV::Arr(vec![LV::Arr(vec![LV::I(1)]), LV::Arr(vec![LV::S("a".into())])]) },
     }
 }
@@ -383,7 +383,7 @@ fn gen_le(r: &mut Rng, env: &[(String, LK)], want: &LK, d: u32) -> (LE, LK) {
         let (e, _) = gen_le(r, env, &wrong, 0);
         return (e, want.clone());
     }
-    if (d == 0 || r.chance(1, 3)) && !matches!(want, LK::EnumNum | LK::EnumStr | LK::EnumRows) {
+    if (d == 0 || r.chance(1, 3)) && !matches!(want, LK::EnumNum | LK::EnumStr | LK::EnumRows | LK::ZipNS) {
         if r.chance(1, 2) { if let Some(n) = pick_var(r, want) { return (LE::Var(n), want.clone()); } }
         return (LE::Lit(gen_lit(r, want)), want.clone());
     }
@@ -410,6 +410,14 @@ fn gen_le(r: &mut Rng, env: &[(String, LK)], want: &LK, d: u32) -> (LE, LK) {
             let (a, _) = gen_le(r, env, &inner, d.saturating_sub(1));
             let f = if r.chance(1, 4) { "enum" } else { "enumerate" };
             (LE::Call(f.into(), if r.chance(1, 12) { vec![a.clone(), a] } else { vec![a] }), want.clone())
+        }
+        LK::ZipNS => {
+            // zip(numbers, strings [, rows]) - now and then one operand, none, or a non-iterable
+            let (a, _) = gen_le(r, env, &LK::ArrNum, d.saturating_sub(1));
+            let (b, _) = gen_le(r, env, &LK::ArrStr, d.saturating_sub(1));
+            let mut args = vec![a, b];
+            match r.below(10) { 0 => { args.truncate(1); } 1 => { let (m, _) = gen_le(r, env, &LK::Mat, 0); args.push(m); } 2 => { args.clear(); } 3 => { args.push(LE::Lit(LV::I(3))); } _ => {} }
+            (LE::Call("zip".into(), args), want.clone())
         }
         k => (LE::Lit(gen_lit(r, k)), k.clone()),
     }
@@ -446,7 +454,7 @@ fn gen_lets(r: &mut Rng, max: usize) -> (Vec<(String, LK)>, Vec<(String, LE)>) {
     let mut env: Vec<(String, LK)> = if r.chance(1, 4) { vec![("PI".to_string(), LK::Num), ("Infinity".to_string(), LK::Num), ("MinusInfinity".to_string(), LK::Num)] } else { vec![] };
     let mut lets: Vec<(String, LE)> = vec![];
     for k in 0..2 + r.below(max) {
-        let want = r.pick(&[LK::Num, LK::Num, LK::Num, LK::Bool, LK::Str, LK::ArrNum, LK::ArrNum, LK::Mat, LK::ArrStr, LK::Other, LK::EnumNum]).clone();
+        let want = r.pick(&[LK::Num, LK::Num, LK::Num, LK::Bool, LK::Str, LK::ArrNum, LK::ArrNum, LK::Mat, LK::ArrStr, LK::Other, LK::EnumNum, LK::ZipNS]).clone();
         let (e, kind) = gen_le(r, &env, &want, 2);
         let name = if r.chance(1, 20) && !env.is_empty() { env[0].0.clone() } else if r.chance(1, 25) { "_".to_string() } else { format!("q{}", k) };
         if name != "_" && !env.iter().any(|p| p.0 == name) { env.push((name.clone(), kind)); }
@@ -478,11 +486,11 @@ fn gen_its(r: &mut Rng, cenv: &[(String, LK)], low: bool, fresh: &mut usize, min
     let mut env = cenv.to_vec();
     let mut its = vec![];
     for _ in 0..min + r.below(3 - min) {
-        let shape = r.below(if low { 12 } else { 14 });
-        let want = match shape { 0..=3 => LK::ArrNum, 4..=6 => LK::Mat, 7 => LK::ArrStr, 8 | 9 => LK::EnumNum, 10 => LK::EnumStr, 11 => LK::EnumRows, 12 => LK::Num, _ => LK::Other };
+        let shape = r.below(if low { 14 } else { 16 });
+        let want = match shape { 0..=3 => LK::ArrNum, 4..=6 => LK::Mat, 7 => LK::ArrStr, 8 | 9 => LK::EnumNum, 10 => LK::EnumStr, 11 => LK::EnumRows, 12 | 13 => LK::ZipNS, 14 => LK::Num, _ => LK::Other };
         let (over, _) = gen_le(r, &env, &want, 1);
-        let is_enum = matches!(want, LK::EnumNum | LK::EnumStr | LK::EnumRows);
-        let tuple = match want { LK::Mat => r.chance(2, 3), LK::ArrNum | LK::ArrStr => !low && r.chance(1, 8), LK::EnumNum | LK::EnumStr | LK::EnumRows => low || r.chance(5, 6), _ => r.chance(1, 3) };
+        let is_enum = matches!(want, LK::EnumNum | LK::EnumStr | LK::EnumRows | LK::ZipNS);
+        let tuple = match want { LK::Mat => r.chance(2, 3), LK::ArrNum | LK::ArrStr => !low && r.chance(1, 8), LK::EnumNum | LK::EnumStr | LK::EnumRows | LK::ZipNS => low || r.chance(5, 6), _ => r.chance(1, 3) };
         let nv = if tuple { if is_enum { if low { 1 + r.below(2) } else { 1 + r.below(3) } } else { 1 + r.below(if low { 2 } else { 3 }) } } else { 1 };
         let mut vars = vec![];
         for _ in 0..nv {
@@ -493,7 +501,7 @@ fn gen_its(r: &mut Rng, cenv: &[(String, LK)], low: bool, fresh: &mut usize, min
         let elem = match (&want, tuple) { (LK::ArrNum, false) => LK::Num, (LK::ArrStr, false) => LK::Str, (LK::Mat, false) => LK::ArrNum, (LK::Mat, true) => LK::Num, _ => LK::Other };
         for (pos, v) in vars.iter().enumerate() {
             // components of an enumerate element: (element, index)
-            let k = if is_enum && tuple { match (pos, &want) { (1, _) => LK::Num, (0, LK::EnumNum) => LK::Num, (0, LK::EnumStr) => LK::Str, (0, LK::EnumRows) => LK::ArrNum, _ => LK::Other } } else { elem.clone() };
+            let k = if is_enum && tuple { match (pos, &want) { (0, LK::ZipNS) => LK::Num, (1, LK::ZipNS) => LK::Str, (1, _) => LK::Num, (0, LK::EnumNum) => LK::Num, (0, LK::EnumStr) => LK::Str, (0, LK::EnumRows) => LK::ArrNum, _ => LK::Other } } else { elem.clone() };
             if v != "_" && !env.iter().any(|p| &p.0 == v) { env.push((v.clone(), k)); }
         }
         its.push(LIt { vars, tuple, over });
